@@ -84,3 +84,10 @@ Definition spec_at_ts (p al c : Z) (a : spec) (t : Z) : result :=
       if (t <? ts_of p al o) || (t >? ts_of p al n) then RErr else RVal (s_map a (norm_slot p al t))
   | _, _ => RErr
   end.
+
+(* declarative reading of the abstract map after a history: the window ends at the largest slot
+   that ever occurred, and a slot of the window holds whatever was written to it last *)
+Definition hist_max (h : list (Z * cell)) : option Z :=
+  fold_left (fun acc x => Some (match acc with Some n => Z.max n (fst x) | None => fst x end)) h None.
+Definition last_write (j : Z) (h : list (Z * cell)) : cell :=
+  fold_left (fun acc x => if fst x =? j then snd x else acc) h None.
